@@ -105,12 +105,15 @@ type pend struct {
 	objs  []*Obj
 	code  uint64
 	read  bool // the operation only observes the objects (commutes with other reads)
+	comm  bool // commuting update (WaitGroup Add/Done): observes nothing, commutes with other such updates
 	site  string
 }
 
 // Obj is the scheduler's view of a synchronisation object.
 type Obj struct {
-	last  uint64 // Merkle hash of the last operation on this object
+	last  uint64 // Merkle hash of the object's history: mix(base, acc) while commuting updates are pending
+	base  uint64 // hash at the last non-commuting operation
+	acc   uint64 // commutative sum of the commuting updates since then
 	Label string
 	w     *World
 	users map[int]struct{}
@@ -558,6 +561,14 @@ func Point(name string, code uint64, ready func() bool, objs ...*Obj) {
 func PointRead(name string, code uint64, ready func() bool, objs ...*Obj) {
 	w := Cur()
 	w.yield(&pend{kind: opSimple, name: name, ready: ready, objs: objs, code: code, read: true})
+}
+
+// PointCommute is Point for updates that observe nothing and commute with each other (WaitGroup.Add/Done:
+// the counter after a set of them does not depend on their order).  They stay ordered with respect to the
+// non-commuting operations on the object (Wait).
+func PointCommute(name string, code uint64, obj *Obj) {
+	w := Cur()
+	w.yield(&pend{kind: opSimple, name: name, objs: []*Obj{obj}, code: code, comm: true})
 }
 
 // share maintains the "operate on a common object" relation between goroutines.
